@@ -133,7 +133,7 @@ def p_argument_3(t):
 def p_argument_4(t):
     '''argument : PERCENT SEGMENT COLON address'''
     t[0] = {
-        x86_afs.segm:x86_afs.reg_sg.index(t[2]),
+        x86_afs.segm:x86_afs.reg_sg.index(t[2].lower()),
         x86_afs.ad:x86_afs.u32,
         }
     t[0].update(t[4])
@@ -153,12 +153,12 @@ def p_register_1(t):
 
 def p_register_2(t):
     '''register : PERCENT ST LPAREN NUMBER RPAREN'''
-    t[0] = t[2] + "%d"%t[4]
+    t[0] = t[2].lower() + "%d"%t[4]
     t[0] ={x86_afs.reg_dict[t[0]]:1, x86_afs.size:x86_afs.f32}
 
 def p_register_2b(t):
     '''register : PERCENT ST'''
-    t[0] = t[2] + "0"
+    t[0] = t[2].lower() + "0"
     t[0] ={x86_afs.reg_dict[t[0]]:1, x86_afs.size : x86_afs.f32}
 
 def p_address_1(t):
